@@ -4,6 +4,7 @@
   its numbers (recorded link, fresh link, recorded node split, fresh node split).
 -/
 import GoNeat.Proofs.WFLemmas
+import GoNeat.Proofs.MaxFrom
 
 namespace GoNeat.C01
 open GoNeat
@@ -43,28 +44,20 @@ theorem haveGene_false (g : Genome W) (x : Gene W) (hs : GenesSorted g.genes) (h
     unfold Gene.sameLink
     simp [this.1, this.2.1, this.2.2]
   have hany : g.genes.any (·.sameLink x) = true := List.any_eq_true.mpr ⟨y, hy, hsame⟩
-  unfold Genome.haveGene Genome.nextGeneInnov at h
-  cases hl : g.genes.getLast? with
-  | none =>
-    have : g.genes = [] := by simpa using hl
-    rw [this] at hy; simp at hy
-  | some last =>
-    have hmax := sorted_le_last g.genes hs last hl y hy
-    rw [hl] at h
+  -- (since fix 48b1f99 `getNextGeneInnovNum` takes the maximum: the order hypothesis `hs` is no longer used)
+  have _ := hs
+  unfold Genome.haveGene at h
+  cases hni : g.nextGeneInnov with
+  | error e =>
+    obtain ⟨ni, e'⟩ := g.nextGeneInnov_ok (List.ne_nil_of_mem hy)
+    rw [e'] at hni; cases hni
+  | ok ni =>
+    rw [hni] at h
     simp only at h
-    cases hm : g.modules.getLast? with
-    | none =>
-      rw [hm] at h
-      simp only at h
-      by_cases hc2 : x.inn ≥ last.inn + 1
-      · omega
-      · rw [if_neg hc2, hany] at h; cases h
-    | some m =>
-      rw [hm] at h
-      simp only at h
-      by_cases hc2 : x.inn ≥ (if m.inn > last.inn then m.inn else last.inn) + 1
-      · split at hc2 <;> omega
-      · rw [if_neg hc2, hany] at h; cases h
+    have hmax := g.nextGeneInnov_gt ni hni y hy
+    by_cases hc2 : x.inn ≥ ni
+    · omega
+    · rw [if_neg hc2, hany] at h; cases h
 
 /-! ### adding a gene / a node -/
 
